@@ -805,9 +805,11 @@ func opText(op protoOp) string {
 
 var replPieces = []string{"$$", "$&", "$`", "$'", "$1", "$2", "$01", "$10", "$11", "$9", "$0", "$00", "$", "x", "-", "$1a", "$12", "<", ">"}
 
+var replPiecesNoGroup = []string{"$$", "$&", "$`", "$'", "$0", "$00", "$", "x", "-", "<", ">", "$&$&"}
+
 func genLastIndex(t *rapid.T, subjLen int) m10.JSVal {
 	switch k := rapid.IntRange(0, 19).Draw(t, "likind"); {
-	case k < 8:
+	case k < 10:
 		return m10.NumVal(float64(rapid.IntRange(0, subjLen+1).Draw(t, "li")))
 	case k < 12:
 		return m10.NumVal(rapid.SampledFrom([]float64{-1, 1.5, -0.5, 0.9, math.NaN(), math.Inf(1), math.Inf(-1), 2147483648, 4294967296, 4294967297, 9007199254740992, math.Copysign(0, -1), 2.999}).Draw(t, "liodd"))
@@ -837,7 +839,7 @@ func genLimit(t *rapid.T) *m10.JSVal {
 		return &v
 	default:
 		v := m10.NumVal(rapid.SampledFrom([]float64{-1, 4294967296, 4294967297, 1.9, math.NaN(), math.Inf(1), -4294967295}).Draw(t, "limodd"))
-		if rapid.IntRange(0, 4).Draw(t, "limstr") == 0 {
+		if rapid.IntRange(0, 4).Draw(t, "limstr") == 4 {
 			v = m10.JSVal{Kind: "str", Str: "2"}
 		}
 		return &v
@@ -848,31 +850,40 @@ func genProto(unicode bool) func(t *rapid.T) protoCase {
 	return func(t *rapid.T) protoCase {
 		form := rapid.SampledFrom(forms).Draw(t, "form")
 		tree := m10.GenTree(t, m10.GenOpts{Unicode: unicode, Space: !unicode, RawNewline: form != "lit" && form != "evallit", Big: true})
-		flags := rapid.SampledFrom([]string{"g", "g", "g", "gi", "gm", "mig", "", "", "i", "m"}).Draw(t, "flags")
+		if rapid.IntRange(0, 2).Draw(t, "wrap") == 2 {
+			// make sure captures are exercised together with lastIndex: (…) around the whole pattern
+			tree = &m10.Node{Kind: m10.KGroup, Kids: []*m10.Node{tree}}
+		}
+		ncaps := m10.Number(tree)
+		flags := rapid.SampledFrom([]string{"g", "g", "g", "g", "gi", "gm", "mig", "g", "", "i", "m"}).Draw(t, "flags")
 		c := protoCase{Src: m10.Render(tree), Flags: flags, Form: form}
 		ic := strings.Contains(flags, "i")
 		ns := rapid.SampledFrom([]int{1, 1, 1, 2}).Draw(t, "nsubjects")
 		for i := 0; i < ns; i++ {
-			c.Subjects = append(c.Subjects, m10.GenSubject(t, tree, ic, unicode, 8))
+			c.Subjects = append(c.Subjects, m10.GenSubjectRep(t, tree, ic, unicode, 8, []int{1, 2, 2, 3}))
 		}
-		n := rapid.IntRange(1, 6).Draw(t, "nops")
+		n := rapid.IntRange(2, 6).Draw(t, "nops")
 		for i := 0; i < n; i++ {
 			op := protoOp{Subj: 0}
-			if ns > 1 && rapid.IntRange(0, 3).Draw(t, "othersubj") == 0 {
+			if ns > 1 && rapid.IntRange(0, 3).Draw(t, "othersubj") == 3 {
 				op.Subj = 1
 			}
-			op.Op = rapid.SampledFrom([]string{"exec", "exec", "exec", "test", "test", "setli", "setli", "match", "match", "replace", "replace", "search", "split", "split"}).Draw(t, "op")
+			op.Op = rapid.SampledFrom([]string{"exec", "exec", "exec", "exec", "exec", "test", "test", "setli", "setli", "match", "match", "replace", "replace", "search", "split", "split"}).Draw(t, "op")
 			switch op.Op {
 			case "setli":
 				v := genLastIndex(t, len(c.Subjects[op.Subj]))
 				op.Val = &v
 			case "replace":
-				if rapid.IntRange(0, 2).Draw(t, "usefn") == 0 {
+				if rapid.IntRange(0, 2).Draw(t, "usefn") == 2 {
 					op.Fn = rapid.SampledFrom([]string{"const", "count", "undef", "echo"}).Draw(t, "fn")
 				} else {
+					pool := replPieces
+					if ncaps == 0 && rapid.IntRange(0, 4).Draw(t, "norefs") > 0 {
+						pool = replPiecesNoGroup
+					}
 					k := rapid.IntRange(0, 4).Draw(t, "npieces")
 					for j := 0; j < k; j++ {
-						op.Repl += rapid.SampledFrom(replPieces).Draw(t, "piece")
+						op.Repl += rapid.SampledFrom(pool).Draw(t, "piece")
 					}
 				}
 			case "split":
